@@ -1,8 +1,9 @@
 SPECIFICATION TSpec
 CONSTANTS
   Values = {1, 2, 3, 4, 5, 6, 8, 10, 12}
-  Gaps = {1, 2, 3, 4}
+  Gaps = {0, 1, 2, 3, 4}
   MaxLen = 14
-INVARIANTS Done TypeOK RunIsRef PeakToTrough Recovery OnePerPeak NoneIffMonotone MaxIsLargest
+INVARIANTS Done TypeOK RunIsRef ReadIsCurrent PeakToTrough Recovery OnePerPeak NoneIffMonotone MaxIsLargest
+PROPERTIES ReadingIsPure
 POSTCONDITION Post
 CHECK_DEADLOCK FALSE
